@@ -1,13 +1,766 @@
-//! C03: generators and executor (see DESIGN.md section 4, C03).
+//! C03: tampered or foreign ciphertext is rejected, never misread, never fatal (DESIGN.md section 4, C03).
+//!
+//! A case = one file-backed store (profiles + records written through the public API) and a list of
+//! experiments (`ops`).  Each experiment corrupts ONE ciphertext cell out of band (second raw SQLite
+//! connection), opens a NEW store handle (the profile key is cached per handle), performs the case's
+//! `reads` on the experiment's profile, and restores the original bytes.
+//!
+//!   case  = {"kind":"c03","id":…,"profiles":[{"name":…,"recs":[{"k","c","n","v","t"}…]}…],"reads":[…],"ops":[…]}
+//!   read  = {"r":"fetch","k","c","n"} | {"r":"fetch_all"|"scan"|"count","c": str|null}
+//!   op    = {"p":i,"col":"category"|"name"|"value"|"tag_name"|"tag_value"|"profile_key","r":j,"t":k,"mut":M}
+//!         | {"open":"wrong_key"|"empty_key"|"bad_format"|"short_key"|"wrong_method_kdf"|"wrong_method_none"|"no_method"|"no_method_wrong_key"}
+//!   M     = {"flip":[[idx,mask]…]} | {"trunc":L} | {"extend":hex,"front":bool} | {"empty":true}
+//!         | {"subst":{"p":i,"r":j,"t":k}}            (same column of another row / profile)
+//!   out   = one entry per op: {"len":n,"open":"ok"|{"err":K}|"panic","res":[per read: rec|null|[recs]|n|{"err":K}|"panic"]}
+//!           | {"skip":"unique"} when the substitution is rejected by the store's unique index
+//!
+//! Oracle (independent of the Lean model): no panic; every returned record equals the record written
+//! under the same identity in that profile; a read never returns a record whose stored ciphertext was
+//! changed (it must fail or omit it); counts never exceed the number of rows written.
+use crate::canon::{err_name, kind_of, recs_json, tags_from_json, value_from_json, Rec, Tag};
+use crate::rawsql::{RawDb, Val};
 use crate::rng::Rng;
-use serde_json::{json, Value};
+use crate::store_case::{cleanup, provision, RAW_KEY};
+use askar_storage::any::AnyBackend;
+use askar_storage::backend::{Backend, BackendSession, ManageBackend};
+use askar_storage::entry::{EntryOperation, EntryTag};
+use askar_storage::future::block_on;
+use askar_storage::{Argon2Level, KdfMethod, PassKey, StoreKeyMethod};
+use serde_json::{json, Map, Value};
+use std::collections::{BTreeMap, BTreeSet};
+use std::panic::{catch_unwind, AssertUnwindSafe};
 
-/// generated cases for this property (each a JSON object with "kind": "c03…")
-pub fn gen(_r: &mut Rng, _thorough: bool, _count: Option<usize>) -> Vec<Value> {
-    vec![]
+/// length of a wrapped profile key: nonce 12 + CBOR(map of 7: "ver":"1" + 6 × (3-char name, 32-byte string)) 235 + tag 16
+const PROFILE_KEY_CT_LEN: usize = 263;
+/// a valid raw key different from `RAW_KEY` (base58 of 32 bytes, derived from a fixed seed)
+fn other_raw_key() -> String {
+    askar_storage::generate_raw_store_key(Some(b"c03 wrong key seed 0123456789abc")).expect("raw key").to_string()
 }
 
-/// run one case against the real code; returns {"out": …, "oracle": […], "feat": {…}}
-pub fn exec(_case: &Value, _tag: &str) -> Value {
-    json!({"out": {"err": "not implemented"}})
+// ---------------------------------------------------------------------------------------------
+// generator
+
+#[derive(Clone)]
+struct GRec {
+    k: i64,
+    c: String,
+    n: String,
+    v: Vec<u8>,
+    t: Vec<Tag>,
+}
+
+impl GRec {
+    fn to_json(&self) -> Value {
+        json!({"k": self.k, "c": self.c, "n": self.n, "v": hex::encode(&self.v), "t": self.t.iter().map(Tag::to_json).collect::<Vec<_>>()})
+    }
+}
+
+fn tg(plain: bool, n: &str, v: &str) -> Tag {
+    Tag { plain, name: n.to_string(), value: v.to_string() }
+}
+
+fn rec(k: i64, c: &str, n: &str, v: &[u8], t: Vec<Tag>) -> GRec {
+    GRec { k, c: c.to_string(), n: n.to_string(), v: v.to_vec(), t }
+}
+
+type Store = Vec<(String, Vec<GRec>)>;
+
+fn fixed_store() -> Store {
+    vec![
+        ("p0".to_string(), vec![
+            rec(2, "c1", "n1", &[0x00], vec![tg(false, "ta", "va"), tg(true, "tp", "vp")]),
+            rec(2, "c1", "n2", &[], vec![]),
+            rec(2, "c2", "n1", b"seventeen bytes!!", vec![tg(false, "", ""), tg(false, "ta", "vb"), tg(true, "", "")]),
+            rec(1, "c1", "n1", b"kms twin", vec![tg(false, "ta", "va")]),
+        ]),
+        ("p1".to_string(), vec![
+            rec(2, "c1", "n1", &[0x01], vec![]),
+            rec(2, "c2", "n2", b"sixteen bytes!!!", vec![tg(false, "ta", "va"), tg(true, "tp", "vp")]),
+            rec(2, "c3", "n3", &[], vec![tg(false, "tb", "vb")]),
+        ]),
+    ]
+}
+
+fn ct_len(pt: usize) -> usize {
+    pt + 28
+}
+
+/// (column, tag index, ciphertext length) of every ciphertext cell of a record
+fn cells(r: &GRec) -> Vec<(&'static str, Option<usize>, usize)> {
+    let mut v = vec![("category", None, ct_len(r.c.len())), ("name", None, ct_len(r.n.len())), ("value", None, ct_len(r.v.len()))];
+    for (i, t) in r.t.iter().enumerate() {
+        v.push(("tag_name", Some(i), ct_len(t.name.len())));
+        if !t.plain {
+            v.push(("tag_value", Some(i), ct_len(t.value.len())));
+        }
+    }
+    v
+}
+
+fn op_cell(p: usize, col: &str, r: Option<usize>, t: Option<usize>, m: Value) -> Value {
+    let mut o = Map::new();
+    o.insert("p".into(), json!(p));
+    o.insert("col".into(), json!(col));
+    if let Some(r) = r { o.insert("r".into(), json!(r)); }
+    if let Some(t) = t { o.insert("t".into(), json!(t)); }
+    o.insert("mut".into(), m);
+    Value::Object(o)
+}
+
+fn reads_for(store: &Store) -> Vec<Value> {
+    let mut kinds = BTreeSet::new();
+    let mut cats = BTreeSet::new();
+    let mut names = BTreeSet::new();
+    for (_, recs) in store {
+        for r in recs {
+            kinds.insert(r.k);
+            cats.insert(r.c.clone());
+            names.insert(r.n.clone());
+        }
+    }
+    let mut out = vec![];
+    for k in &kinds { for c in &cats { for n in &names { out.push(json!({"r": "fetch", "k": k, "c": c, "n": n})); } } }
+    for r in ["fetch_all", "scan", "count"] {
+        out.push(json!({"r": r, "c": null}));
+        for c in &cats { out.push(json!({"r": r, "c": c})); }
+    }
+    out
+}
+
+fn push_cases(out: &mut Vec<Value>, next_id: &mut u64, sub: &str, store: &Store, ops: Vec<Value>, chunk: usize) {
+    let profiles: Vec<Value> = store.iter().map(|(n, rs)| json!({"name": n, "recs": rs.iter().map(GRec::to_json).collect::<Vec<_>>()})).collect();
+    let reads = reads_for(store);
+    for c in ops.chunks(chunk.max(1)) {
+        out.push(json!({"kind": "c03", "id": *next_id, "sub": sub, "profiles": profiles, "reads": reads, "ops": c}));
+        *next_id += 1;
+    }
+}
+
+fn rand_mask(r: &mut Rng) -> u8 {
+    if r.chance(1, 2) { 1u8 << r.below(8) } else { (r.below(255) + 1) as u8 }
+}
+
+fn random_extend(r: &mut Rng) -> Value {
+    let n = 1 + r.below(20);
+    let b = r.bytes(n);
+    json!({"extend": hex::encode(b), "front": r.chance(1, 2)})
+}
+
+fn random_flip(r: &mut Rng, len: usize) -> Value {
+    let n = if r.chance(3, 4) { 1 } else { 2 + r.below(3) };
+    let mut idx = BTreeSet::new();
+    for _ in 0..n { idx.insert(r.below(len)); }
+    json!({"flip": idx.iter().map(|i| json!([i, rand_mask(r)])).collect::<Vec<_>>()})
+}
+
+fn random_store(r: &mut Rng, thorough: bool) -> Store {
+    let cats = ["c1", "c2", "", "ca\u{0}t", "çà/%_"];
+    let names = ["n1", "n2", "", "n'\"\\", "名前\u{1F511}"];
+    let tnames = ["ta", "tb", "", "~t", "t:,"];
+    let tvals = ["va", "vb", "", "1:41,0:42", "\u{10FFFF}"];
+    let vlens = [0usize, 1, 11, 12, 15, 16, 17, 27, 28, 33, 300];
+    let mut store = vec![];
+    for p in 0..2 {
+        let n = 1 + r.below(if thorough { 6 } else { 4 });
+        let mut recs: Vec<GRec> = vec![];
+        let mut tries = 0;
+        while recs.len() < n && tries < 50 {
+            tries += 1;
+            let k = if r.chance(1, 5) { 1 } else { 2 };
+            let small = r.chance(3, 4);
+            let c = if small { cats[r.below(2)] } else { *r.pick(&cats) };
+            let nm = if small { names[r.below(2)] } else { *r.pick(&names) };
+            if recs.iter().any(|x| x.k == k && x.c == c && x.n == nm) { continue; }
+            let vl = *r.pick(&vlens);
+            let v = r.bytes(vl);
+            let nt = r.below(4);
+            let mut t = vec![];
+            for _ in 0..nt { t.push(tg(r.chance(1, 3), *r.pick(&tnames), *r.pick(&tvals))); }
+            recs.push(rec(k, c, nm, &v, t));
+        }
+        store.push((format!("p{}", p), recs));
+    }
+    store
+}
+
+/// a random experiment on a store
+fn random_op(r: &mut Rng, store: &Store) -> Value {
+    let p = r.below(store.len());
+    let recs = &store[p].1;
+    if r.chance(1, 12) {
+        return match r.below(5) {
+            0 => op_cell(p, "profile_key", None, None, random_flip(r, PROFILE_KEY_CT_LEN)),
+            1 => op_cell(p, "profile_key", None, None, json!({"trunc": r.below(PROFILE_KEY_CT_LEN + 1)})),
+            2 => op_cell(p, "profile_key", None, None, json!({"trunc": r.below(30)})),
+            3 => op_cell(p, "profile_key", None, None, json!({"subst": {"p": 1 - p}})),
+            _ => op_cell(p, "profile_key", None, None, random_extend(r)),
+        };
+    }
+    let ri = r.below(recs.len());
+    let cs = cells(&recs[ri]);
+    let (col, t, len) = cs[r.below(cs.len())];
+    let m = match r.below(10) {
+        0..=3 => random_flip(r, len),
+        4 => json!({"trunc": r.below(len + 1)}),
+        5 => json!({"trunc": r.below(29.min(len + 1))}),
+        6 => random_extend(r),
+        7 => json!({"empty": true}),
+        _ => {
+            // substitution by the same column of another row (same or other profile)
+            let p2 = if r.chance(1, 2) { p } else { 1 - p };
+            let recs2 = &store[p2].1;
+            let r2 = r.below(recs2.len());
+            if t.is_some() {
+                let cand: Vec<usize> = recs2[r2].t.iter().enumerate().filter(|(_, x)| col == "tag_name" || !x.plain).map(|(i, _)| i).collect();
+                if cand.is_empty() { json!({"empty": true}) } else { json!({"subst": {"p": p2, "r": r2, "t": cand[r.below(cand.len())]}}) }
+            } else {
+                json!({"subst": {"p": p2, "r": r2}})
+            }
+        }
+    };
+    op_cell(p, col, Some(ri), t, m)
+}
+
+pub fn gen(r: &mut Rng, thorough: bool, count: Option<usize>) -> Vec<Value> {
+    let mut out = vec![];
+    let mut id = 0u64;
+    let fixed = fixed_store();
+
+    // (1) the three records of p0 x every ciphertext column x truncation to EVERY length 0..=len
+    for ri in 0..3 {
+        let mut ops = vec![];
+        for (col, t, len) in cells(&fixed[0].1[ri]) {
+            for l in 0..=len { ops.push(op_cell(0, col, Some(ri), t, json!({"trunc": l}))); }
+        }
+        push_cases(&mut out, &mut id, "trunc", &fixed, ops, 40);
+    }
+    // (2) the wrapped profile keys: every length (p0 = the profile opened by default: the open is the read)
+    for p in 0..2 {
+        let ops: Vec<Value> = (0..=PROFILE_KEY_CT_LEN).map(|l| op_cell(p, "profile_key", None, None, json!({"trunc": l}))).collect();
+        push_cases(&mut out, &mut id, "trunc_pk", &fixed, ops, 66);
+    }
+    // (3) extension, emptying, one flip at both ends, for every cell of every record
+    {
+        let mut ops = vec![];
+        for (p, (_, recs)) in fixed.iter().enumerate() {
+            for (ri, rc) in recs.iter().enumerate() {
+                for (col, t, len) in cells(rc) {
+                    ops.push(op_cell(p, col, Some(ri), t, json!({"empty": true})));
+                    ops.push(op_cell(p, col, Some(ri), t, json!({"extend": "00", "front": false})));
+                    ops.push(op_cell(p, col, Some(ri), t, json!({"extend": hex::encode(r.bytes(16)), "front": r.chance(1, 2)})));
+                    ops.push(op_cell(p, col, Some(ri), t, json!({"flip": [[0, 1]]})));
+                    ops.push(op_cell(p, col, Some(ri), t, json!({"flip": [[len - 1, 128]]})));
+                    ops.push(op_cell(p, col, Some(ri), t, json!({"flip": [[11, 1]]})));
+                    ops.push(op_cell(p, col, Some(ri), t, json!({"flip": [[12, 1]]})));
+                }
+            }
+            ops.push(op_cell(p, "profile_key", None, None, json!({"empty": true})));
+            ops.push(op_cell(p, "profile_key", None, None, json!({"extend": "00", "front": false})));
+            ops.push(op_cell(p, "profile_key", None, None, json!({"extend": "0102030405060708090a0b0c", "front": true})));
+            ops.push(op_cell(p, "profile_key", None, None, json!({"flip": [[0, 1]]})));
+            ops.push(op_cell(p, "profile_key", None, None, json!({"flip": [[PROFILE_KEY_CT_LEN - 1, 128]]})));
+            ops.push(op_cell(p, "profile_key", None, None, json!({"flip": [[100, 255]]})));
+        }
+        push_cases(&mut out, &mut id, "edges", &fixed, ops, 40);
+    }
+    // (4) substitutions: same-profile cross-row (category / name / value), cross-profile (all columns),
+    //     the kind twins, tag rows of the same profile (excluded by the property: agreement only)
+    {
+        let mut ops = vec![];
+        for (p, (_, recs)) in fixed.iter().enumerate() {
+            for a in 0..recs.len() {
+                for b in 0..recs.len() {
+                    if a == b { continue; }
+                    for col in ["category", "name", "value"] {
+                        ops.push(op_cell(p, col, Some(a), None, json!({"subst": {"p": p, "r": b}})));
+                    }
+                }
+            }
+            let q = 1 - p;
+            for a in 0..recs.len() {
+                for b in 0..fixed[q].1.len() {
+                    for col in ["category", "name", "value"] {
+                        ops.push(op_cell(p, col, Some(a), None, json!({"subst": {"p": q, "r": b}})));
+                    }
+                    for (ta, tga) in recs[a].t.iter().enumerate() {
+                        for (tb, tgb) in fixed[q].1[b].t.iter().enumerate() {
+                            ops.push(op_cell(p, "tag_name", Some(a), Some(ta), json!({"subst": {"p": q, "r": b, "t": tb}})));
+                            if !tga.plain && !tgb.plain {
+                                ops.push(op_cell(p, "tag_value", Some(a), Some(ta), json!({"subst": {"p": q, "r": b, "t": tb}})));
+                            }
+                        }
+                    }
+                }
+            }
+            ops.push(op_cell(p, "profile_key", None, None, json!({"subst": {"p": q}})));
+        }
+        // same-profile tag rows (re-association: outside the property)
+        ops.push(op_cell(0, "tag_value", Some(0), Some(0), json!({"subst": {"p": 0, "r": 2, "t": 1}})));
+        ops.push(op_cell(0, "tag_name", Some(0), Some(0), json!({"subst": {"p": 0, "r": 2, "t": 0}})));
+        ops.push(op_cell(0, "tag_name", Some(2), Some(1), json!({"subst": {"p": 0, "r": 0, "t": 1}})));
+        push_cases(&mut out, &mut id, "subst", &fixed, ops, 40);
+    }
+    // (5) opening with a wrong key / wrong method
+    {
+        let ops: Vec<Value> = ["wrong_key", "empty_key", "bad_format", "short_key", "wrong_method_kdf", "wrong_method_none", "no_method", "no_method_wrong_key"]
+            .iter().map(|o| json!({"open": o})).collect();
+        push_cases(&mut out, &mut id, "open", &fixed, ops, 40);
+    }
+    // (6) random flips on the fixed store
+    {
+        let n = if thorough { 2000 } else { 200 };
+        let ops: Vec<Value> = (0..n).map(|_| {
+            let p = r.below(2);
+            if r.chance(1, 10) { return op_cell(p, "profile_key", None, None, random_flip(r, PROFILE_KEY_CT_LEN)); }
+            let ri = r.below(fixed[p].1.len());
+            let cs = cells(&fixed[p].1[ri]);
+            let (col, t, len) = cs[r.below(cs.len())];
+            op_cell(p, col, Some(ri), t, random_flip(r, len))
+        }).collect();
+        push_cases(&mut out, &mut id, "flips", &fixed, ops, 25);
+    }
+    // (7) random stores (colliding + exotic alphabets, boundary value lengths) x random experiments;
+    //     thorough: additionally every single-byte flip of every cell
+    let stores = count.unwrap_or(if thorough { 50 } else { 8 });
+    for _ in 0..stores {
+        let mut rr = r.fork();
+        let store = random_store(&mut rr, thorough);
+        let mut ops: Vec<Value> = (0..if thorough { 120 } else { 30 }).map(|_| random_op(&mut rr, &store)).collect();
+        if thorough {
+            for (p, (_, recs)) in store.iter().enumerate() {
+                for (ri, rc) in recs.iter().enumerate() {
+                    for (col, t, len) in cells(rc) {
+                        for i in 0..len.min(80) { ops.push(op_cell(p, col, Some(ri), t, json!({"flip": [[i, rand_mask(&mut rr)]]}))); }
+                    }
+                }
+                for i in 0..PROFILE_KEY_CT_LEN { ops.push(op_cell(p, "profile_key", None, None, json!({"flip": [[i, rand_mask(&mut rr)]]}))); }
+            }
+        }
+        push_cases(&mut out, &mut id, "random", &store, ops, 40);
+    }
+    out
+}
+
+// ---------------------------------------------------------------------------------------------
+// executor
+
+type Ident = (i64, String, String);
+
+struct Layout {
+    prof_ids: Vec<i64>,
+    item_ids: Vec<Vec<i64>>,
+    tag_ids: Vec<Vec<Vec<i64>>>,
+}
+
+fn bump(feat: &mut BTreeMap<String, u64>, k: &str) {
+    *feat.entry(k.to_string()).or_insert(0) += 1;
+}
+
+fn jerr_kind(e: &askar_storage::Error) -> Value {
+    json!({"err": err_name(e.kind())})
+}
+
+struct Cell {
+    table: &'static str,
+    column: &'static str,
+    id: i64,
+}
+
+fn cell_of(layout: &Layout, col: &str, p: usize, r: Option<usize>, t: Option<usize>) -> Option<Cell> {
+    Some(match col {
+        "category" | "name" | "value" => Cell {
+            table: "items",
+            column: match col { "category" => "category", "name" => "name", _ => "value" },
+            id: *layout.item_ids.get(p)?.get(r?)?,
+        },
+        "tag_name" | "tag_value" => Cell {
+            table: "items_tags",
+            column: if col == "tag_name" { "name" } else { "value" },
+            id: *layout.tag_ids.get(p)?.get(r?)?.get(t?)?,
+        },
+        "profile_key" => Cell { table: "profiles", column: "profile_key", id: *layout.prof_ids.get(p)? },
+        _ => return None,
+    })
+}
+
+fn read_cell(raw: &RawDb, c: &Cell) -> Result<Vec<u8>, String> {
+    let rows = raw.query(&format!("SELECT {} FROM {} WHERE id = ?1", c.column, c.table), &[Val::Int(c.id)])?;
+    rows.get(0).and_then(|r| r.get(0)).map(|v| v.as_blob()).ok_or_else(|| "cell not found".to_string())
+}
+
+fn write_cell(raw: &RawDb, c: &Cell, bytes: &[u8]) -> Result<(), String> {
+    raw.query(&format!("UPDATE {} SET {} = ?1 WHERE id = ?2", c.table, c.column), &[Val::Blob(bytes.to_vec()), Val::Int(c.id)])?;
+    if raw.changes() != 1 { return Err("no row updated".into()); }
+    Ok(())
+}
+
+fn open_with(path: &str, method: Option<StoreKeyMethod>, key: &str) -> Result<AnyBackend, askar_storage::Error> {
+    let uri = format!("sqlite://{}", path);
+    let key = key.to_string();
+    block_on(async move { uri.as_str().open_backend(method, PassKey::from(key), None).await })
+}
+
+fn close_backend(backend: AnyBackend) {
+    block_on(async move {
+        backend.close().await.ok();
+        drop(backend);
+    });
+}
+
+/// open a fresh handle; Err = canonical failure ("panic" or {"err": kind})
+fn try_open(path: &str, method: Option<StoreKeyMethod>, key: &str) -> Result<AnyBackend, Value> {
+    match catch_unwind(AssertUnwindSafe(|| open_with(path, method, key))) {
+        Err(_) => Err(json!("panic")),
+        Ok(Err(e)) => Err(jerr_kind(&e)),
+        Ok(Ok(b)) => Ok(b),
+    }
+}
+
+fn do_read(backend: &AnyBackend, profile: &str, read: &Value) -> Value {
+    let kind = read["r"].as_str().unwrap_or("");
+    let cat = read["c"].as_str().map(|s| s.to_string());
+    let res = catch_unwind(AssertUnwindSafe(|| {
+        block_on(async {
+            match kind {
+                "scan" => {
+                    let mut scan = match backend.scan(Some(profile.to_string()), None, cat.clone(), None, None, None, None, false).await {
+                        Ok(s) => s,
+                        Err(e) => return jerr_kind(&e),
+                    };
+                    let mut all: Vec<Rec> = vec![];
+                    loop {
+                        match scan.fetch_next().await {
+                            Ok(Some(rows)) => all.extend(rows.iter().map(Rec::from_entry)),
+                            Ok(None) => break,
+                            // records of earlier pages are judged by the oracle through "partial"
+                            Err(e) => return json!({"err": err_name(e.kind()), "partial": recs_json(false, &all)}),
+                        }
+                    }
+                    recs_json(false, &all)
+                }
+                _ => {
+                    let mut sess = match backend.session(Some(profile.to_string()), false) {
+                        Ok(s) => s,
+                        Err(e) => return jerr_kind(&e),
+                    };
+                    let out = match kind {
+                        "fetch" => match sess.fetch(kind_of(read["k"].as_i64().unwrap_or(2)), read["c"].as_str().unwrap_or(""), read["n"].as_str().unwrap_or(""), false).await {
+                            Ok(None) => Value::Null,
+                            Ok(Some(e)) => Rec::from_entry(&e).to_json(),
+                            Err(e) => jerr_kind(&e),
+                        },
+                        "fetch_all" => match sess.fetch_all(None, cat.as_deref(), None, None, None, false, false).await {
+                            Ok(rows) => recs_json(false, &rows.iter().map(Rec::from_entry).collect::<Vec<_>>()),
+                            Err(e) => jerr_kind(&e),
+                        },
+                        "count" => match sess.count(None, cat.as_deref(), None).await {
+                            Ok(n) => json!(n),
+                            Err(e) => jerr_kind(&e),
+                        },
+                        _ => json!({"err": "BadRead"}),
+                    };
+                    sess.close(false).await.ok();
+                    drop(sess);
+                    out
+                }
+            }
+        })
+    }));
+    res.unwrap_or_else(|_| json!("panic"))
+}
+
+fn ident_of(rec: &Value) -> Ident {
+    (rec["k"].as_i64().unwrap_or(0), rec["c"].as_str().unwrap_or("").to_string(), rec["n"].as_str().unwrap_or("").to_string())
+}
+
+/// the property's own verdict on one read result
+#[allow(clippy::too_many_arguments)]
+fn judge(read: &Value, got: &Value, written: &BTreeMap<Ident, Value>, affected: &BTreeSet<Ident>, changed: bool, exempt: bool,
+         ctx: &str, orc: &mut Vec<Value>, feat: &mut BTreeMap<String, u64>) {
+    let rk = read["r"].as_str().unwrap_or("?");
+    let mut fail = |class: &str, detail: Value| {
+        orc.push(json!({"sig": format!("{}:{}:{}", ctx, rk, class), "read": read, "got": detail}));
+    };
+    if got == "panic" {
+        bump(feat, "obs:panic");
+        fail("panic", got.clone());
+        return;
+    }
+    let check_recs = |recs: &[Value], fail: &mut dyn FnMut(&str, Value)| {
+        let mut seen = BTreeSet::new();
+        for rc in recs {
+            let id = ident_of(rc);
+            if !seen.insert(id.clone()) { fail("duplicate", rc.clone()); }
+            if exempt { continue; }
+            match written.get(&id) {
+                Some(w) if w == rc => {
+                    if changed && affected.contains(&id) { fail("accepted", rc.clone()); }
+                }
+                _ => fail("altered", rc.clone()),
+            }
+        }
+    };
+    if let Some(e) = got.get("err") {
+        bump(feat, &format!("obs:err:{}", e.as_str().unwrap_or("?")));
+        if let Some(p) = got.get("partial").and_then(|p| p.as_array()) { check_recs(p, &mut fail); }
+        return;
+    }
+    match rk {
+        "fetch" => {
+            if got.is_null() { bump(feat, "obs:none"); return; }
+            bump(feat, "obs:record");
+            let want = (read["k"].as_i64().unwrap_or(0), read["c"].as_str().unwrap_or("").to_string(), read["n"].as_str().unwrap_or("").to_string());
+            if ident_of(got) != want { fail("altered", got.clone()); return; }
+            check_recs(std::slice::from_ref(got), &mut fail);
+        }
+        "fetch_all" | "scan" => {
+            bump(feat, "obs:rows");
+            match got.as_array() { Some(a) => check_recs(a, &mut fail), None => fail("malformed", got.clone()) }
+        }
+        "count" => {
+            bump(feat, "obs:count");
+            match got.as_i64() {
+                Some(n) if n >= 0 && (n as usize) <= written.len() => {}
+                _ => fail("count-exceeds", got.clone()),
+            }
+        }
+        _ => {}
+    }
+}
+
+fn mutation_class(m: &Value, old_len: usize, same_profile: bool, col: &str, kind_twin: bool) -> String {
+    if m.get("flip").is_some() { "flip".into() }
+    else if let Some(l) = m["trunc"].as_u64() {
+        let l = l as usize;
+        if l == old_len { "trunc_full".into() } else if l < 12 { "trunc_lt_nonce".into() } else if l < 28 { "trunc_lt_tag".into() } else { "trunc".into() }
+    }
+    else if m.get("extend").is_some() { "extend".into() }
+    else if m.get("empty").is_some() { "empty".into() }
+    else if m.get("subst").is_some() {
+        if !same_profile { "subst_profile".into() }
+        else if col.starts_with("tag_") { "subst_tag".into() }
+        else if kind_twin { "subst_kind".into() }
+        else { "subst_row".into() }
+    }
+    else { "unknown".into() }
+}
+
+pub fn exec(case: &Value, tag: &str) -> Value {
+    let mut feat: BTreeMap<String, u64> = BTreeMap::new();
+    let mut orc: Vec<Value> = vec![];
+    let profiles: Vec<(String, Vec<Value>)> = case["profiles"].as_array().cloned().unwrap_or_default().iter()
+        .map(|p| (p["name"].as_str().unwrap_or("").to_string(), p["recs"].as_array().cloned().unwrap_or_default())).collect();
+    if profiles.is_empty() { return json!({"out": {"err": "no profiles"}, "oracle": [], "feat": feat}); }
+    let reads = case["reads"].as_array().cloned().unwrap_or_default();
+    let ops = case["ops"].as_array().cloned().unwrap_or_default();
+
+    // --- build the store through the public API
+    let (backend, path) = provision(true, &profiles[0].0, "", &format!("c03-{}", tag));
+    let path_s = path.clone().expect("file store");
+    let setup: Result<(), askar_storage::Error> = block_on(async {
+        for (i, (pname, recs)) in profiles.iter().enumerate() {
+            if i > 0 { backend.create_profile(Some(pname.clone())).await?; }
+            let mut sess = backend.session(Some(pname.clone()), false)?;
+            for rc in recs {
+                let tags: Vec<EntryTag> = tags_from_json(&rc["t"]).unwrap_or_default().iter().map(Tag::to_entry_tag).collect();
+                let v = value_from_json(&rc["v"]);
+                sess.update(kind_of(rc["k"].as_i64().unwrap_or(2)), EntryOperation::Insert, rc["c"].as_str().unwrap_or(""), rc["n"].as_str().unwrap_or(""),
+                    Some(&v), Some(&tags), None).await?;
+            }
+            sess.close(false).await?;
+            drop(sess);
+        }
+        Ok(())
+    });
+    close_backend(backend);
+    if let Err(e) = setup {
+        cleanup(&path);
+        return json!({"out": {"err": format!("setup: {}", err_name(e.kind()))}, "oracle": [], "feat": feat});
+    }
+
+    // --- what was written, per profile (canonical records), and where it lives
+    let written: Vec<BTreeMap<Ident, Value>> = profiles.iter().map(|(_, recs)| {
+        recs.iter().map(|rc| {
+            let r = Rec { kind: rc["k"].as_i64().unwrap_or(2), cat: rc["c"].as_str().unwrap_or("").into(), name: rc["n"].as_str().unwrap_or("").into(),
+                          value: value_from_json(&rc["v"]), tags: tags_from_json(&rc["t"]).unwrap_or_default() };
+            ((r.kind, r.cat.clone(), r.name.clone()), r.to_json())
+        }).collect()
+    }).collect();
+    let layout = {
+        let raw = RawDb::open(&path_s).expect("raw open");
+        let mut l = Layout { prof_ids: vec![], item_ids: vec![], tag_ids: vec![] };
+        for (pname, recs) in &profiles {
+            let pid = raw.query("SELECT id FROM profiles WHERE name = ?1", &[Val::Text(pname.clone())]).expect("profiles")[0][0].as_int();
+            let items: Vec<i64> = raw.query("SELECT id FROM items WHERE profile_id = ?1 ORDER BY id", &[Val::Int(pid)]).expect("items").iter().map(|r| r[0].as_int()).collect();
+            assert_eq!(items.len(), recs.len(), "row count after set-up");
+            let tags = items.iter().map(|it| raw.query("SELECT id FROM items_tags WHERE item_id = ?1 ORDER BY id", &[Val::Int(*it)]).expect("tags").iter().map(|r| r[0].as_int()).collect()).collect();
+            l.prof_ids.push(pid);
+            l.item_ids.push(items);
+            l.tag_ids.push(tags);
+        }
+        l
+    };
+
+    // --- experiments
+    let mut out = vec![];
+    for op in &ops {
+        bump(&mut feat, "ops");
+        if let Some(how) = op["open"].as_str() {
+            bump(&mut feat, &format!("open:{}", how));
+            let argon = StoreKeyMethod::DeriveKey(KdfMethod::Argon2i(Argon2Level::Interactive));
+            let other = other_raw_key();
+            let (method, key): (Option<StoreKeyMethod>, &str) = match how {
+                "wrong_key" => (Some(StoreKeyMethod::RawKey), other.as_str()),
+                "empty_key" => (Some(StoreKeyMethod::RawKey), ""),
+                "bad_format" => (Some(StoreKeyMethod::RawKey), "not base58: 0OIl"),
+                "short_key" => (Some(StoreKeyMethod::RawKey), "2VfUX"),
+                "wrong_method_kdf" => (Some(argon), RAW_KEY),
+                "wrong_method_none" => (Some(StoreKeyMethod::Unprotected), RAW_KEY),
+                "no_method" => (None, RAW_KEY),
+                _ => (None, other.as_str()),
+            };
+            let should_open = how == "no_method";
+            match try_open(&path_s, method, key) {
+                Ok(b) => {
+                    // a handle obtained with a wrong key must not exist; with the right key it must read back the store
+                    let res: Vec<Value> = reads.iter().map(|rd| do_read(&b, &profiles[0].0, rd)).collect();
+                    close_backend(b);
+                    if !should_open { orc.push(json!({"sig": format!("open:{}:opened", how)})); }
+                    for (rd, got) in reads.iter().zip(res.iter()) {
+                        judge(rd, got, &written[0], &BTreeSet::new(), false, false, &format!("open:{}", how), &mut orc, &mut feat);
+                    }
+                    out.push(json!({"open": "ok", "res": res}));
+                }
+                Err(v) => {
+                    if v == "panic" { orc.push(json!({"sig": format!("open:{}:panic", how)})); }
+                    else if should_open { orc.push(json!({"sig": format!("open:{}:refused", how), "got": v})); }
+                    bump(&mut feat, &format!("obs:open:{}", if v == "panic" { "panic".to_string() } else { format!("err:{}", v["err"].as_str().unwrap_or("?")) }));
+                    out.push(json!({"open": v}));
+                }
+            }
+            continue;
+        }
+
+        let col = op["col"].as_str().unwrap_or("");
+        let p = op["p"].as_u64().unwrap_or(0) as usize;
+        let r = op["r"].as_u64().map(|x| x as usize);
+        let t = op["t"].as_u64().map(|x| x as usize);
+        let m = &op["mut"];
+        let cell = match cell_of(&layout, col, p, r, t) {
+            Some(c) => c,
+            None => { out.push(json!({"err": "harness: no such cell"})); continue; }
+        };
+        let raw = RawDb::open(&path_s).expect("raw open");
+        let old = match read_cell(&raw, &cell) {
+            Ok(b) => b,
+            Err(e) => { out.push(json!({"err": format!("harness: {}", e)})); continue; }
+        };
+        // the new bytes
+        let mut same_profile = true;
+        let mut kind_twin = false;
+        let mut src_ident: Option<(usize, Ident)> = None;
+        let new: Vec<u8> = if let Some(fl) = m["flip"].as_array() {
+            let mut b = old.clone();
+            let mut ok = true;
+            for f in fl {
+                let (i, mask) = (f[0].as_u64().unwrap_or(0) as usize, f[1].as_u64().unwrap_or(1) as u8);
+                if i < b.len() { b[i] ^= mask; } else { ok = false; }
+            }
+            if !ok { out.push(json!({"len": old.len(), "err": "harness: flip index beyond the ciphertext"})); continue; }
+            b
+        } else if let Some(l) = m["trunc"].as_u64() {
+            if (l as usize) > old.len() { out.push(json!({"len": old.len(), "err": "harness: truncation beyond the ciphertext"})); continue; }
+            old[..l as usize].to_vec()
+        } else if let Some(x) = m["extend"].as_str() {
+            let extra = hex::decode(x).unwrap_or_default();
+            if m["front"].as_bool().unwrap_or(false) { [extra, old.clone()].concat() } else { [old.clone(), extra].concat() }
+        } else if m.get("empty").is_some() {
+            vec![]
+        } else if let Some(s) = m.get("subst") {
+            let p2 = s["p"].as_u64().unwrap_or(0) as usize;
+            let r2 = s["r"].as_u64().map(|x| x as usize);
+            let t2 = s["t"].as_u64().map(|x| x as usize);
+            same_profile = p2 == p;
+            if let (Some(a), Some(b)) = (r, r2) {
+                if let (Some(ra), Some(rb)) = (profiles.get(p).and_then(|x| x.1.get(a)), profiles.get(p2).and_then(|x| x.1.get(b))) {
+                    kind_twin = same_profile && col == "value" && ra["c"] == rb["c"] && ra["n"] == rb["n"];
+                    src_ident = Some((p2, ident_of(rb)));
+                }
+            }
+            match cell_of(&layout, col, p2, r2, t2).map(|c| read_cell(&raw, &c)) {
+                Some(Ok(b)) => b,
+                _ => { out.push(json!({"len": old.len(), "err": "harness: no such source cell"})); continue; }
+            }
+        } else {
+            out.push(json!({"err": "harness: unknown mutation"}));
+            continue;
+        };
+        let _ = src_ident;
+        let class = mutation_class(m, old.len(), same_profile, col, kind_twin);
+        let changed = new != old;
+        // re-association of tag rows inside one profile is outside the property (deterministic, item-independent tag ciphertexts)
+        let exempt = class == "subst_tag";
+        let ctx = format!("{}:{}", col, class);
+        bump(&mut feat, &format!("col:{}", col));
+        bump(&mut feat, &format!("cls:{}", class));
+        if let Err(e) = write_cell(&raw, &cell, &new) {
+            drop(raw);
+            if e.to_lowercase().contains("unique") { bump(&mut feat, "skip:unique"); out.push(json!({"skip": "unique"})); }
+            else { out.push(json!({"len": old.len(), "err": format!("harness: {}", e)})); }
+            continue;
+        }
+        drop(raw);
+
+        // the records whose stored ciphertext is no longer what was written
+        let affected: BTreeSet<Ident> = if !changed { BTreeSet::new() }
+            else if col == "profile_key" { written[p].keys().cloned().collect() }
+            else { r.and_then(|ri| profiles[p].1.get(ri)).map(ident_of).into_iter().collect() };
+
+        let mut entry = json!({"len": old.len()});
+        match try_open(&path_s, Some(StoreKeyMethod::RawKey), RAW_KEY) {
+            Err(v) => {
+                if v == "panic" {
+                    bump(&mut feat, "obs:open:panic");
+                    orc.push(json!({"sig": format!("{}:open:panic", ctx), "op": op, "len": new.len()}));
+                } else {
+                    bump(&mut feat, &format!("obs:open:err:{}", v["err"].as_str().unwrap_or("?")));
+                    // refusing to open is a legitimate outcome only when the opened profile's key was touched
+                    if !(col == "profile_key" && p == 0 && changed) {
+                        orc.push(json!({"sig": format!("{}:open:refused", ctx), "op": op, "got": v}));
+                    }
+                }
+                entry["open"] = v;
+            }
+            Ok(b) => {
+                entry["open"] = json!("ok");
+                let res: Vec<Value> = reads.iter().map(|rd| { bump(&mut feat, "reads"); do_read(&b, &profiles[p].0, rd) }).collect();
+                close_backend(b);
+                for (rd, got) in reads.iter().zip(res.iter()) {
+                    judge(rd, got, &written[p], &affected, changed, exempt, &ctx, &mut orc, &mut feat);
+                }
+                // "partial" pages are judged above but are not part of the compared outcome
+                entry["res"] = Value::Array(res.into_iter().map(|mut v| { if let Some(o) = v.as_object_mut() { o.remove("partial"); } v }).collect());
+            }
+        }
+        out.push(entry);
+
+        // restore the original bytes
+        let raw = RawDb::open(&path_s).expect("raw open");
+        write_cell(&raw, &cell, &old).expect("restore");
+    }
+
+    // after all experiments the store must read back exactly as written (the restores worked, nothing was damaged)
+    match try_open(&path_s, Some(StoreKeyMethod::RawKey), RAW_KEY) {
+        Ok(b) => {
+            for (i, (pname, _)) in profiles.iter().enumerate() {
+                let got = do_read(&b, pname, &json!({"r": "fetch_all", "c": null}));
+                let want = Value::Array({ let mut v: Vec<(&Ident, &Value)> = written[i].iter().collect(); v.sort_by(|a, b| (a.0 .0, a.0 .1.as_bytes(), a.0 .2.as_bytes()).cmp(&(b.0 .0, b.0 .1.as_bytes(), b.0 .2.as_bytes()))); v.into_iter().map(|x| x.1.clone()).collect() });
+                if got != want { orc.push(json!({"sig": "final:readback-differs", "profile": pname, "got": got})); }
+            }
+            close_backend(b);
+        }
+        Err(v) => orc.push(json!({"sig": "final:open-failed", "got": v})),
+    }
+    cleanup(&path);
+    json!({"out": out, "oracle": orc, "feat": feat})
 }
